@@ -18,3 +18,4 @@ def load_all():
     from . import fixedarray  # noqa
     from . import render  # noqa
     from . import unit_system  # noqa
+    from . import fraction  # noqa
